@@ -559,11 +559,6 @@ def load_corpus():
     return out
 
 
-def known_class(f):
-    """classification of a failure by the listed known findings (known/C30.json): id or None"""
-    return None
-
-
 def run(ctx):
     ctx.cov["rule"] = ("programs of the core printed as Erg: 3-7 top-level statements (integer definitions, functions with one "
                        "parameter or two of which the second has a default value taken from the enclosing scope, functions that "
